@@ -1,14 +1,15 @@
 #!/bin/sh
 # usage: tools/confirm_seed2.sh <Cxx> <variant>   -- like confirm_seed.sh, for round-2 seeds made against the current HEAD of /repo
 pid="$1"; v="$2"
-src="/tmp/seed2/$pid/out/$v"
+base="${SEEDBASE:-/tmp/seed2}"
+src="$base/$pid/out/$v"
 wt="/tmp/seedconfirm/$pid-$v"
 rm -rf "$wt"; mkdir -p /tmp/seedconfirm
 git -C /repo worktree add -q --detach "$wt" HEAD || exit 2
 cp /repo/kopf/_cogs/helpers/versions.py "$wt/kopf/_cogs/helpers/versions.py"
 demo0="$(ls "$src"/demo_*.py | head -1)"
 demo="/tmp/seedconfirm/$(basename "$demo0" .py)_$pid.py"      # demos may assert the path of the agent's own worktree
-sed "s#/tmp/seed2/$pid/wt#$wt#g" "$demo0" > "$demo"
+sed "s#$base/$pid/wt#$wt#g" "$demo0" > "$demo"
 run_demo() { (cd "$wt" && PYTHONPATH="$wt" timeout 900 /venv/bin/python "$demo" >"$1" 2>&1; echo $?); }
 (cd "$wt" && git apply "$src/patch.diff") || { echo "patch does not apply"; git -C /repo worktree remove --force "$wt"; exit 2; }
 rc_with=$(run_demo "$src/confirm_demo_with.log")
